@@ -104,8 +104,7 @@ def has_area(kind, coords):
         return True
     if kind == "TimeInterval":
         return b[2] > b[0]
-    if kind == "BoundingBox":
-        return b[2] > b[0] and b[3] > b[1]
+    # "non-zero extent" = the area is non-zero in binary64 (a 1e-278 x 1e-275 box has area 0.0)
     return to_shp(kind, coords).area > 0
 
 
